@@ -427,6 +427,8 @@ func main() {
 	tokCases(gen.New(), thorough)
 	logAppendCases(thorough)
 	controlCases(thorough)
+	earlyCloseCases()
+	readVsCases(thorough)
 	expiredCases(r, thorough)
 	readerCases(r, thorough)
 }
